@@ -7,6 +7,8 @@
 import AllianceModel
 import AllianceProofs.ScopeCheck
 import AllianceProofs.InvCheck
+import AllianceProofs.MoneyCheck
+import AllianceProofs.RestartAll
 open Alliance Alliance.Trace
 
 /-- components not predicted for a given operation kind -/
@@ -49,7 +51,15 @@ def compareStep (idx : Nat) (pre : World) (op : XOp) (wd : List (ValId × Coins)
     if obsRes = "ok" then
       for (comp, msg) in theoremCheckInv pre post do
         out := out ++ [s!"step {idx} diverge component={comp} model=[{msg}] impl=[observed state]"]
-  | .reimport => pure ()
+      -- the money-side theorems (C02 conservation at the block boundary, C12 pool never debited, C04 other users untouched,
+      -- C15 hop blocked) instantiated on this observed step
+      for (comp, msg) in theoremCheckMoney o (wd.all (fun p => p.2.all (fun c => decide (0 ≤ c.2)))) pre post do
+        out := out ++ [s!"step {idx} diverge component={comp} model=[{msg}] impl=[observed state]"]
+  | .reimport =>
+    -- the restart theorem (C18) instantiated on this observed export → wipe → import
+    if obsRes = "ok" then
+      for (comp, msg) in theoremCheckRestart pre post do
+        out := out ++ [s!"step {idx} diverge component={comp} model=[{msg}] impl=[observed state]"]
   if out.isEmpty then return [s!"step {idx} ok"]
   return out
 
